@@ -1447,3 +1447,127 @@ func keepsResult(f *ssa.Function) bool {
 	}
 	return false
 }
+
+// ---------------------------------------------------------------------------
+// floatOperandsYieldFloats: an arithmetic operation one of whose operands is a
+// float yields a float.  The methods of the numeric types that take the right
+// operand as a float64 return what NewFloat makes (or an error): a result
+// pushed through an integer on the way (2 ** 0.5 computed as int64(math.Pow))
+// is truncated, and differs from the same operation on a byte.
+func floatOperandsYieldFloats(c *core.Ctx) {
+	p := c.P
+	n := 0
+	for _, fn := range repoFns(p, "object") {
+		if fn.Signature.Recv() == nil || fn.Parent() != nil || len(fn.Params) != 3 {
+			continue
+		}
+		if !strings.HasPrefix(fn.Name(), "runOperation") {
+			continue
+		}
+		bt, ok := fn.Params[2].Type().Underlying().(*types.Basic)
+		if !ok || bt.Kind() != types.Float64 {
+			continue
+		}
+		n++
+		bad := ""
+		for _, b := range fn.Blocks {
+			for _, in := range b.Instrs {
+				r, ok := in.(*ssa.Return)
+				if !ok || len(r.Results) != 1 {
+					continue
+				}
+				for _, o := range core.Origins(spilledResult(b, r.Results[0])) {
+					if mi, ok := o.(*ssa.MakeInterface); ok {
+						o = mi.X
+					}
+					call, ok := o.(*ssa.Call)
+					if !ok {
+						continue
+					}
+					cal := call.Call.StaticCallee()
+					if cal == nil {
+						continue
+					}
+					switch {
+					case cal.Name() == "NewFloat", cal.Name() == "NewBool", strings.HasSuffix(cal.Name(), "Errorf"), cal.Name() == "NewError":
+					default:
+						bad = cal.Name() + " at " + p.Pos(call.Pos())
+					}
+				}
+			}
+		}
+		c.Check(bad == "", core.SSAName(fn)+"|float-operand-yields-float", p.Pos(fn.Pos()),
+			core.SSAName(fn)+" operates on a float operand and returns "+ife(bad == "", "floats (or errors)", "what "+bad+" makes: the result is not a float, so it has been truncated on the way"))
+	}
+	if n < 2 {
+		core.Undecidedf("only %d numeric operation methods with a float operand found", n)
+	}
+	c.Stat("float_operand_methods", n)
+}
+
+// ---------------------------------------------------------------------------
+// sortOrdersAreTotalOverFloats: a comparison function handed to the sort
+// package that orders by a float with `<` says what it does with NaN.  NaN is
+// neither less nor greater than anything; with it in the input the comparison
+// is no order, the result depends on where the elements stood before, and for
+// the items of a set that is Go's map order: the printed form of {NaN, 1.0,
+// 2.0} changes from run to run.
+func sortOrdersAreTotalOverFloats(c *core.Ctx) {
+	p := c.P
+	n := 0
+	for _, fn := range repoFns(p, "object", "builtins") {
+		if fn.Parent() == nil {
+			continue
+		}
+		toSort := false
+		for _, b := range fn.Parent().Blocks {
+			for _, in := range b.Instrs {
+				call, ok := in.(*ssa.Call)
+				if !ok {
+					continue
+				}
+				cal := call.Call.StaticCallee()
+				if cal == nil || cal.Pkg == nil || cal.Pkg.Pkg.Path() != "sort" {
+					continue
+				}
+				for _, a := range call.Call.Args {
+					for _, o := range core.Origins(a) {
+						if mc, ok := o.(*ssa.MakeClosure); ok && mc.Fn == ssa.Value(fn) {
+							toSort = true
+						}
+					}
+				}
+			}
+		}
+		if !toSort {
+			continue
+		}
+		floatLess, nanTest := "", false
+		for _, b := range fn.Blocks {
+			for _, in := range b.Instrs {
+				switch x := in.(type) {
+				case *ssa.BinOp:
+					if x.Op == token.LSS || x.Op == token.GTR {
+						if bt, ok := x.X.Type().Underlying().(*types.Basic); ok && bt.Info()&types.IsFloat != 0 {
+							floatLess = p.Pos(x.Pos())
+						}
+					}
+				case *ssa.Call:
+					if cal := x.Call.StaticCallee(); cal != nil && cal.Pkg != nil && cal.Pkg.Pkg.Path() == "math" && cal.Name() == "IsNaN" {
+						nanTest = true
+					}
+				}
+			}
+		}
+		if floatLess == "" {
+			continue
+		}
+		n++
+		c.Check(nanTest, core.SSAName(fn)+"|float-order-handles-nan", p.Pos(fn.Pos()),
+			core.SSAName(fn.Parent())+" sorts with a comparison that orders floats with < (at "+floatLess+")"+ife(nanTest, " and places NaN explicitly", " and does not say where NaN goes: with a NaN among the elements the comparison is not an order, and the outcome depends on the order the elements came in"))
+	}
+	if n == 0 {
+		core.Undecidedf("no sort comparison orders floats")
+	}
+	c.Stat("float_sort_comparisons", n)
+}
